@@ -5,8 +5,8 @@ OpsAlpha == {T("num","n"), T("ref","x"), T("op","-"), T("op","*"), T("op","="), 
              T("op","!"), T("op","++"), T("op","?"), T("op",":"), T("delim","("), T("delim",")")}
 DelAlpha == {T("num","n"), T("fun","f"), T("delim","("), T("delim",")"), T("delim","["), T("delim","]"), T("delim","{"), T("delim","}"),
              T("comma",","), T("op",":"), T("semi",";"), T("op","-"), T("op","?")}
-CallAlpha == {T("num","n"), T("str","s"), T("fun","f"), T("delim","("), T("delim",")"), T("delim","]"), T("comma",","), T("semi",";")}
-ListAlpha == {T("str","s"), T("delim","["), T("delim","]"), T("delim","("), T("delim",")"), T("comma",","), T("op",":")}
+CallAlpha == {T("num","n"), T("str","s"), T("fun","f"), T("delim","("), T("delim",")"), T("delim","]"), T("comma",","), T("semi",";"), T("bad","e")}
+ListAlpha == {T("str","s"), T("delim","["), T("delim","]"), T("delim","("), T("delim",")"), T("comma",","), T("op",":"), T("bad","e")}
 MapAlpha == {T("num","n"), T("delim","{"), T("delim","}"), T("comma",","), T("op",":"), T("op","?"), T("semi",";")}
 AllAlpha == OpsAlpha \cup DelAlpha \cup ListAlpha \cup CallAlpha
 DelCallMap == DelAlpha \cup CallAlpha \cup MapAlpha
